@@ -18,7 +18,7 @@ sys.path.insert(0, os.path.join(HERE, "..", "bytesym"))
 import vcommon as V
 from vcommon import log
 import z3
-import core, ref, driver as D, gen01, gen15, gen07, gen12, gen08, gen13, gen17, gen04, gen02, gen11
+import core, ref, driver as D, gen01, gen15, gen07, gen12, gen08, gen13, gen17, gen04, gen02, gen11, gen14
 
 LIMITS = {"timeout_ms": 4000, "max_steps": 6000, "max_paths": 160, "max_depth": 10, "budget_s": 90}
 G = {}
@@ -37,7 +37,7 @@ def build_cli(scratch):
 
 
 def family(prop):
-    return {"C01": gen01, "C15": gen15, "C07": gen07, "C12": gen12, "C08": gen08, "C13": gen13, "C17": gen17, "C04": gen04, "C18": gen04, "C02": gen02, "C11": gen11}[prop]
+    return {"C01": gen01, "C15": gen15, "C07": gen07, "C12": gen12, "C08": gen08, "C13": gen13, "C17": gen17, "C04": gen04, "C18": gen04, "C02": gen02, "C11": gen11, "C14": gen14}[prop]
 
 
 def path_models(paths, nin, limit):
@@ -368,6 +368,8 @@ def select(prop, tier):
         return gen02.select(tier, V.seed())
     if prop == "C11":
         return gen11.select(tier, V.seed())
+    if prop == "C14":
+        return gen14.select(tier, V.seed())
     if prop == "C01":
         if tier == "quick":
             return gen01.select([(1, None), (2, 1100), (3, 200)], V.seed(), deep=80)
